@@ -523,11 +523,38 @@ def explore_result_fate(fn, origin_blk, start_blk, dest_key, dest_ty_ix, io_vari
 # A3 data dependence (flow-insensitive, over-approximate; used only for "must depend on" obligations)
 
 
+# the fact base of the tree under analysis (set by whoever loads it): lets Deps look *through* calls to small fatfs
+# helpers, so that an expression moved into a helper function keeps its provenance at the call site
+CURRENT_FACTS = None
+_SUMMARY_KINDS = ('call', 'op', 'field', 'const', 'constpath', 'ctor', 'fnref')
+
+
+def callee_summary_tokens(callee, depth=0, facts=None):
+    """provenance tokens of what a fatfs function returns (callees, operators, fields, constants), transitively through
+    at most two levels of fatfs helpers"""
+    facts = facts or CURRENT_FACTS
+    if facts is None or depth > 2:
+        return frozenset()
+    fn = facts.fns.get(callee)
+    if fn is None or fn.crate != 'fatfs' or not fn.blocks:
+        return frozenset()
+    cache = facts.__dict__.setdefault('_deps_summary_cache', {})
+    key = (callee, depth)
+    if key in cache:
+        return cache[key]
+    cache[key] = frozenset()  # recursion guard
+    d = Deps(fn, _summary_depth=depth + 1)
+    toks = frozenset(tk for tk in d.of_local(0) if tk[0] in _SUMMARY_KINDS)
+    cache[key] = toks
+    return toks
+
+
 class Deps:
-    def __init__(self, fn, blocks=None):
+    def __init__(self, fn, blocks=None, _summary_depth=0):
         """blocks: restrict to statements of these blocks (e.g. one arm of a branch plus the common prefix)"""
         self.fn = fn
         self.blocks = blocks
+        self._summary_depth = _summary_depth
         self.direct = defaultdict(set)  # local -> set of tokens
         self._build()
         self._closure = {}
@@ -584,6 +611,8 @@ class Deps:
                 self.direct[l].add(('callsite', bi))
                 for a in t['args']:
                     self.direct[l] |= self._tokens_of_operand(a)
+                if t.get('callee') and t.get('callee') != fn.name:
+                    self.direct[l] |= callee_summary_tokens(t['callee'], self._summary_depth, getattr(fn, 'facts_ref', None))
                 # &mut arguments may be written by the callee: they depend on the other arguments too
                 for a in t['args']:
                     p = op_place(a)
@@ -877,11 +906,77 @@ def zero_targets(term):
     return out
 
 
-def edge_dominates(fn, edges, blk):
-    """is blk unreachable from the entry once the given CFG edges are removed (and reachable otherwise)?"""
+def edge_dominates(fn, edges, blk, _depth=0):
+    """is blk unreachable from the entry once the given CFG edges are removed (and reachable otherwise)?
+
+    Also true through a *materialised boolean*: when blk is only reached on the true (false) arm of a switch on a
+    bool local that is assigned nothing but constants, and every block that assigns it `true` (`false`) is itself
+    dominated by the edges (`matches!(..)`, `let ok = a && b; if ok {..}`): the branch was taken only if one of those
+    assignments ran."""
     if blk not in fn.reachable():
         return False
-    return blk not in fn.reach_from([0], cut_edges=edges)
+    edges = set(edges)
+    if blk not in fn.reach_from([0], cut_edges=edges):
+        return True
+    if _depth >= 3:
+        return False
+    for bi, want, arm in _bool_switches(fn):
+        arm_edges = {(bi, x) for x in arm}
+        if not arm_edges or blk in fn.reach_from([0], cut_edges=arm_edges):
+            continue  # this arm does not dominate blk
+        setters = _bool_setters(fn, bi)
+        if setters is None:
+            continue
+        blocks = setters.get(want, [])
+        if blocks and all(edge_dominates(fn, edges, b2, _depth + 1) for b2 in blocks):
+            return True
+    return False
+
+
+def _bool_switches(fn):
+    cache = fn.__dict__.setdefault('_bool_switch_cache', None)
+    if cache is not None:
+        return cache
+    out = []
+    for bi in fn.reachable():
+        t = fn.blocks[bi]['term']
+        if t['k'] != 'switch':
+            continue
+        p = op_place(t['discr'])
+        if p is None or p['p'] or fn.local_ty(p['l']).get('k') != 'bool':
+            continue
+        out.append((bi, 1, nonzero_targets(t)))
+        out.append((bi, 0, zero_targets(t)))
+    fn.__dict__['_bool_switch_cache'] = out
+    return out
+
+
+def _bool_setters(fn, sw_blk):
+    """{1: [blocks assigning const true], 0: [blocks assigning const false]} for the bool local tested at sw_blk (following
+    one plain copy), or None when it is assigned anything else"""
+    p = op_place(fn.blocks[sw_blk]['term']['discr'])
+    l = p['l']
+    for _ in range(3):
+        assigns = []
+        for bi in fn.reachable():
+            for s in fn.blocks[bi]['stmts']:
+                if s['k'] == 'assign' and s['lhs']['l'] == l and not s['lhs']['p']:
+                    assigns.append((bi, s['rv']))
+            t = fn.blocks[bi]['term']
+            if t['k'] == 'call' and t['dest']['l'] == l and not t['dest']['p']:
+                return None
+        if len(assigns) == 1 and assigns[0][1]['k'] == 'use' and op_place(assigns[0][1]['a']) is not None and \
+                not op_place(assigns[0][1]['a'])['p']:
+            l = op_place(assigns[0][1]['a'])['l']
+            continue
+        out = {0: [], 1: []}
+        for bi, rv in assigns:
+            c = op_const(rv['a']) if rv['k'] == 'use' else None
+            if c is None or c.get('val') not in (0, 1):
+                return None
+            out[c['val']].append(bi)
+        return out if (out[0] or out[1]) else None
+    return None
 
 
 def const_operand_value(o):
